@@ -113,11 +113,16 @@ PROPS = {
         tstep=["T_C18_NoAbnormalAbort"],
     ),
     "C09": dict(
-        family="eco", level="exploration", mc=[],
+        family="eco", mc=[],
         parts=[
-            dict(family="eco", mc=[], inv=[], step=[], tinv=["T_C09_RoundTrip"], tstep=["T_C09_SameState"], observers="export"),
-            dict(family="data", mc_module="MC_Data", trace_module="TraceData", mc=[], inv=[], step=[],
-                 tinv=["T_C09_RoundTrip"], tstep=["T_C09_SameState"], observers="export",
+            # the modelled validators hold in every reachable state of the bounded models (C09_ValidGenesis);
+            # the model is bound to the real validators at every export observation (T_C09_ValidatorModel)
+            dict(family="eco", mc=[("credits_q", 120), ("roles_q", 120), ("bridge_q", 200), ("market_q", 300), ("basket_q", 600)],
+                 mc_t=[("credits_t", 600), ("roles_t", 600), ("bridge_t", 900), ("market_q", 600), ("basket_t", 1500)],
+                 inv=["C09_ValidGenesis"], step=[], tinv=["T_C09_RoundTrip", "T_C09_ValidatorModel"], tstep=["T_C09_SameState"], observers="export"),
+            dict(family="data", mc_module="MC_Data", trace_module="TraceData", mc=[("data_res_q", 300)], mc_t=[("data_res_q", 300)],
+                 inv=["C09_DataValidGenesis"], step=[],
+                 tinv=["T_C09_RoundTrip", "T_C09_ValidatorModel"], tstep=["T_C09_SameState"], observers="export",
                  gen=[("data_inj_q", 16, 20), ("data_buckets_q", 8, 20)], gen_t=[("data_inj_q", 100, 25), ("data_buckets_q", 60, 25)]),
         ],
     ),
@@ -190,7 +195,7 @@ TEXT = {
     "C06": dict(text=_MC + "Escrow = open orders is an invariant; 'allowed when written' is an action property against the pre-state allow list.", technique="TLA+ invariant + action property + TLC model checking + trace validation"),
     "C07": dict(text=_MC + "Settlement is checked with exact rational arithmetic over naturals and the property's own one-unit tolerances, not equality with the specification.", technique="TLA+ action properties with cross-multiplied rational bounds + TLC model checking + trace validation"),
     "C08": dict(text=_MC + "Every gated message is tried by every account in every role assignment of the bounded configurations; footprints are frame conditions on the state record.", technique="TLA+ role predicates and frame conditions + TLC model checking + trace validation (ecocredit and data)"),
-    "C09": dict(text="Exploration driven by the specification: TLC generates behaviours (including the boundary inputs message validation accepts), the harness inserts export/validate/import/re-export observation steps after ~30% of the steps and at the end, continues each behaviour on the imported chain, and TLC evaluates the observations and state equality. The validators are code and can only be observed; there is nothing to model-check.", technique="TLA+-generated behaviours with ExportImport observation steps + TLC trace validation"),
+    "C09": dict(text=_MC + "The modules' own genesis validators are modelled in TLA+ (Props!GenesisValid: date order, reference resolution, the per-batch supply equation of ValidateGenesis, its emptiness rules; Data!DataGenesisValid) and TLC checks that every reachable state of the bounded models passes them (C09_ValidGenesis; it finds the recorded start=end finding by itself when known_findings.txt is empty). The model is bound to the code at every export observation: the harness exports, validates, imports into an empty chain, re-exports and continues the behaviour on the imported chain after ~30% of the steps and at the end, and TLC checks that the real validator's verdict equals the model's (T_C09_ValidatorModel), the re-export is identical, invariants hold and the abstract state is unchanged. The import/re-export identity itself is observed, not model-checked.", technique="TLA+ model of the genesis validators checked by TLC on all reachable states + TLA+-generated behaviours with ExportImport observation steps validated by TLC"),
     "C10": dict(text="Exploration driven by the specification: TLC-generated histories are executed once with random restarts at block boundaries and re-executed in three fresh applications with other restart schedules; TLC compares the digest sequences (app hash per block; code, data, gas, events per message) and checks that failed messages leave the abstract state and the raw KV content unchanged.", technique="TLA+-generated histories and restart schedules + replica comparison validated by TLC"),
     "C11": dict(text=_MC + "Admission has both directions (only if / if); oldest-first and auto-retire are action properties over the logged response and the basket rows.", technique="TLA+ action properties + TLC model checking over criteria boundaries + trace validation"),
     "C12": dict(text=_MC + "The real Module.BeginBlock runs through ABCI under recover; the post-condition is an action property on every block step.", technique="TLA+ action property on BeginBlock + TLC model checking + trace validation"),
